@@ -1,8 +1,151 @@
 (* Props/C17.v — the property theorems of C17 and nothing else.
-   C17: rule exclusions and updates equal the rewritten rule set. *)
+   C17: rule exclusions and updates equal the rewritten rule set.
+   cf_compile = the parser on the source; cf_apply = the directive as coded on the compiled rules;
+   cf_rewrite = the explicit rewriting of the source; rx = Go's regexp (any function). *)
+From Coq Require Import String.
 From Verif Require Import Base Config ConfigProofs.
+Open Scope N_scope.
 
+(* SecRuleRemoveById / ByTag / ByMsg = the configuration that never contained the rules
+   (id lists and ranges that do not cover id 0, see C17_remove_id_zero_refuted) *)
+Theorem C17_remove_equiv : forall rx dflt src c d c' rq,
+  cf_compile dflt src = Some c -> is_remove d = true -> zero_free d = true -> cf_apply d c = Some c' ->
+  exists c'', cf_compile dflt (cf_rewrite d src) = Some c'' /\ cf_outcome rx c' rq = cf_outcome rx c'' rq.
+Proof. exact remove_equiv. Qed.
+Print Assumptions C17_remove_equiv.
+
+(* SecRuleUpdateTargetById / ByTag = the rule written with the added targets and exclusions *)
+Theorem C17_update_target_equiv : forall rx dflt src c d c' rq,
+  cf_compile dflt src = Some c -> zero_free d = true ->
+  (exists l items, d = DUpdTargetById l items) \/ (exists t items, d = DUpdTargetByTag t items) ->
+  cf_apply d c = Some c' ->
+  exists c'', cf_compile dflt (cf_rewrite d src) = Some c'' /\ cf_outcome rx c' rq = cf_outcome rx c'' rq.
+Proof. exact update_target_equiv. Qed.
+Print Assumptions C17_update_target_equiv.
+
+(* what the written exclusion means: no entry hit by it is selected by a target of that variable *)
+Theorem C17_update_target_excludes : forall rx v k l ecol rq cv m,
+  In cv (cl_vars (update_target [TNeg v k] l)) -> cv_var cv = v -> cv_count cv = false ->
+  In m (select rx cv ecol rq) ->
+  exc_hit rx (mkExc (key_text k) (key_rx (var_cs v) k)) (lower_ascii (snd (fst m))) = false.
+Proof. exact update_target_excludes. Qed.
+Print Assumptions C17_update_target_excludes.
+
+(* SecRuleUpdateActionById = the rule written with the new actions; guards: ids not covering 0 and no
+   "block" among the new actions (both refuted below without the guard) *)
+Theorem C17_update_action_equiv_partial : forall rx dflt src c l acts c' rq,
+  cf_compile dflt src = Some c -> forallb spec_zero_free l = true -> no_block acts = true ->
+  cf_apply (DUpdActionById l acts) c = Some c' ->
+  exists c'', cf_compile dflt (cf_rewrite (DUpdActionById l acts) src) = Some c'' /\
+              cf_outcome rx c' rq = cf_outcome rx c'' rq.
+Proof. exact update_action_equiv_partial. Qed.
+Print Assumptions C17_update_action_equiv_partial.
+
+Theorem C17_update_action_guard_instance :
+  exists c c', cf_compile w_dflt w0_src = Some c /\
+    forallb spec_zero_free [IdRange 5 6; IdOne 7] = true /\ no_block [ADisr DDeny; AStatus 500] = true /\
+    cf_apply (DUpdActionById [IdRange 5 6; IdOne 7] [ADisr DDeny; AStatus 500]) c = Some c' /\
+    cf_outcome simple_rx c' w_req = ([(5, [(VMethod, [], str "GET"%string)])], Some (500%N, 5%N, DDeny)).
+Proof. exact update_action_guard_instance. Qed.
+Print Assumptions C17_update_action_guard_instance.
+
+(* lists of id fields = the fields one after the other; a range = its present members one by one *)
+Theorem C17_lists_ranges_enumerate :
+  (forall l1 l2 rs, cf_apply (DRemoveById (l1 ++ l2)) rs
+                    = match l1, l2 with
+                      | [], _ => cf_apply (DRemoveById l2) rs
+                      | _, [] => cf_apply (DRemoveById l1) rs
+                      | _, _ => obind (cf_apply (DRemoveById l1) rs) (cf_apply (DRemoveById l2))
+                      end) /\
+  (forall single f l1 l2 rs,
+      upd_specs single f (l1 ++ l2) rs = obind (upd_specs single f l1 rs) (upd_specs single f l2)) /\
+  (forall a b rs, (a <= b)%N ->
+      cf_apply (DRemoveById [IdRange a b]) rs
+      = Some (fold_left (fun rs i => del_first i rs) (present a b rs) rs)) /\
+  (forall a b f rs, (forall r, cr_id (f r) = cr_id r) -> in_rng a b 0 = false -> uniq rs ->
+      upd_range a b f rs = fold_left (fun rs i => upd_first_or_skip i f rs) (present a b rs) rs).
+Proof. exact lists_ranges_enumerate. Qed.
+Print Assumptions C17_lists_ranges_enumerate.
+
+(* run-time removal: after the ctl executed (any state st), every later evaluation of any rules rs of
+   the WAF, in any phase, behaves as over the rule list without the rules carrying the removed ids *)
+Theorem C17_ctl_equiv_remove : forall rx all c st rs ph rq,
+  is_rm_ctl c = true ->
+  obs (eval_list rx all rs ph rq (cf_ctl_step all c st))
+  = obs (eval_list rx (allP all (rm_set all c)) (filter (keepP (rm_set all c)) rs) ph rq st).
+Proof. exact ctl_remove_equiv. Qed.
+Print Assumptions C17_ctl_equiv_remove.
+
+(* run-time target exclusion: as over the rule list with the exclusion written into every link of the
+   rules carrying the selected ids (chain members included) *)
+Theorem C17_ctl_equiv_target : forall rx all c st rs ph rq,
+  is_tgt_ctl c = true ->
+  obs (eval_list rx all rs ph rq (cf_ctl_step all c st))
+  = obs (eval_list rx (allT all (tgt_ids all c) (tgt_var c) (tgt_exc c))
+                   (map (rwT (tgt_ids all c) (tgt_var c) (tgt_exc c)) rs) ph rq st).
+Proof. exact ctl_target_equiv. Qed.
+Print Assumptions C17_ctl_equiv_target.
+
+(* the same, against the REWRITTEN SOURCE compiled by the parser *)
+Theorem C17_ctl_equiv_remove_source : forall rx dflt src all c st srs ph rq,
+  cf_compile dflt src = Some all -> is_rm_ctl c = true -> rm_set all c 0 = false ->
+  exists all', cf_compile dflt (src_ctl_remove (rm_set all c) src) = Some all' /\
+    obs (eval_list rx all (map (compile_item dflt) srs) ph rq (cf_ctl_step all c st))
+    = obs (eval_list rx all' (map (compile_item dflt) (src_ctl_remove (rm_set all c) srs)) ph rq st).
+Proof. exact ctl_remove_equiv_src. Qed.
+Print Assumptions C17_ctl_equiv_remove_source.
+
+Theorem C17_ctl_equiv_target_source_partial : forall rx dflt src all c st srs ph rq,
+  cf_compile dflt src = Some all -> is_tgt_ctl c = true -> key_not_rx (tgt_key c) = true ->
+  let Q := tq (tgt_ids all c) in
+  exists all', cf_compile dflt (map (src_ctl_target Q (tgt_var c) (tgt_key c)) src) = Some all' /\
+    obs (eval_list rx all (map (compile_item dflt) srs) ph rq (cf_ctl_step all c st))
+    = obs (eval_list rx all' (map (compile_item dflt) (map (src_ctl_target Q (tgt_var c) (tgt_key c)) srs)) ph rq st).
+Proof. exact ctl_target_equiv_src. Qed.
+Print Assumptions C17_ctl_equiv_target_source_partial.
+
+(* a transaction never changes the rule list the next transaction sees *)
 Theorem C17_ctl_local : forall rx rules rqs1 rq rqs2,
   nth (length rqs1) (cf_serve rx rules (rqs1 ++ rq :: rqs2)) ([], None) = cf_outcome rx rules rq.
 Proof. exact serve_local. Qed.
 Print Assumptions C17_ctl_local.
+
+(* Interrupt and skipAfter commute: keeping per-type action lists loses nothing *)
+Theorem C17_exec_commute : forall id stt d m s,
+  exec_disr id stt d (st_set_skip m s) = st_set_skip m (exec_disr id stt d s).
+Proof. exact cf_exec_commute. Qed.
+Print Assumptions C17_exec_commute.
+
+(* ---- the code as it is violates the unguarded statements ---- *)
+Theorem C17_remove_id_zero_refuted :
+  exists dflt src d c c' c'' rq,
+    cf_compile dflt src = Some c /\ is_remove d = true /\ cf_apply d c = Some c' /\
+    cf_compile dflt (cf_rewrite d src) = Some c'' /\
+    cf_outcome simple_rx c' rq <> cf_outcome simple_rx c'' rq.
+Proof. exact remove_id_zero_refuted. Qed.
+Print Assumptions C17_remove_id_zero_refuted.
+
+Theorem C17_update_action_id_zero_refuted :
+  exists dflt src l acts c c' c'' rq,
+    cf_compile dflt src = Some c /\ no_block acts = true /\ cf_apply (DUpdActionById l acts) c = Some c' /\
+    cf_compile dflt (cf_rewrite (DUpdActionById l acts) src) = Some c'' /\
+    cf_outcome simple_rx c' rq <> cf_outcome simple_rx c'' rq.
+Proof. exact update_action_id_zero_refuted. Qed.
+Print Assumptions C17_update_action_id_zero_refuted.
+
+Theorem C17_update_action_block_refuted :
+  exists dflt src l acts c c' c'' rq,
+    cf_compile dflt src = Some c /\ forallb spec_zero_free l = true /\
+    cf_apply (DUpdActionById l acts) c = Some c' /\
+    cf_compile dflt (cf_rewrite (DUpdActionById l acts) src) = Some c'' /\
+    cf_outcome simple_rx c' rq <> cf_outcome simple_rx c'' rq.
+Proof. exact update_action_block_refuted. Qed.
+Print Assumptions C17_update_action_block_refuted.
+
+Theorem C17_ctl_target_regex_case_refuted :
+  exists dflt c1 c2 rq,
+    cf_compile dflt (wrx_src true) = Some c1 /\
+    cf_compile dflt (map (src_ctl_target (fun id => N.eqb id 1) VHeaders (KRx (str "^X-Foo"%string))) (wrx_src false)) = Some c2 /\
+    cf_outcome simple_rx c1 rq <> cf_outcome simple_rx c2 rq.
+Proof. exact ctl_target_regex_case_refuted. Qed.
+Print Assumptions C17_ctl_target_regex_case_refuted.
